@@ -245,6 +245,22 @@ func includeHeader(hdr string, signedHdrs []string) bool {
 	return false
 }
 
+// StripAwsChunked removes the "aws-chunked" transfer coding from a
+// Content-Encoding value: it describes the request body framing, which the
+// gateway decodes, and is not part of the stored object's content encoding.
+func StripAwsChunked(contentEncoding string) string {
+	if !strings.Contains(contentEncoding, "aws-chunked") {
+		return contentEncoding
+	}
+	kept := []string{}
+	for _, enc := range strings.Split(contentEncoding, ",") {
+		if strings.TrimSpace(enc) != "aws-chunked" && strings.TrimSpace(enc) != "" {
+			kept = append(kept, strings.TrimSpace(enc))
+		}
+	}
+	return strings.Join(kept, ",")
+}
+
 func IsBigDataAction(ctx *fiber.Ctx) bool {
 	pathParts := strings.Split(ctx.Path(), "/")
 	// only object level PUTs (a non empty key) carry object data
